@@ -47,6 +47,24 @@ def bodies():
     B['array-self-reference'] = f'{VAR} a = [k, 0]; a[1] = a; a[1][0] = a[0] + 5; {P} a[0]; {P} a[1][1][0]; {P} {N["len"]}(a[1]); a[1] = 0; {P} a;'
     B['redeclare-error-guarded'] = f'{VAR} z = k; {{ {VAR} z = 1; }} {P} z;'
     B['var-list'] = f'{VAR} m = k, n2 = m + 1, q = [m, n2]; {P} q; {VAR} u, w = 2; {P} u; {P} w;'
+    # loops whose test depends on state that the body, the increment or a helper changes: the test is evaluated anew
+    # before every round, on the state of that moment
+    B['worklist-grows'] = f'{VAR} w = [k, k + 1]; {VAR} seen = 0; {FOR} ({VAR} j = 0; j < {N["len"]}(w); j = j + 1) {{ seen = seen + 1; {IF} ({N["len"]}(w) < 5) {{ w = {N["append"]}(w, j); }} }} {P} seen; {P} w;'
+    B['worklist-grows-via-helper'] = f'{VAR} w = [k]; {FUN} push(x) {{ w = {N["append"]}(w, x); }} {VAR} seen = 0; {FOR} ({VAR} j = 0; j < {N["len"]}(w); j = j + 1) {{ seen = seen + 1; {IF} (j < 3) {{ push(j * 10); }} }} {P} seen; {P} w;'
+    B['worklist-shrinks'] = f'{VAR} w = [1, 2, 3, 4, 5, 6]; {VAR} seen = 0; {FOR} ({VAR} j = 0; j < {N["len"]}(w); j = j + 1) {{ seen = seen + w[j]; {IF} (j == k % 2) {{ w = {N["remove"]}(w, 0); w = {N["remove"]}(w, 0); }} }} {P} seen; {P} w;'
+    B['while-on-length'] = f'{VAR} w = [1, 2, 3]; {VAR} n = 0; {WHILE} ({N["len"]}(w) > 0) {{ n = n + w[0]; w = {N["remove"]}(w, 0); {IF} (n == 1 && k > 0) {{ w = {N["append"]}(w, 9); }} }} {P} n;'
+    B['bound-variable-changes'] = f'{VAR} lim = 3; {VAR} c = 0; {FOR} ({VAR} j = 0; j < lim; j = j + 1) {{ c = c + 1; {IF} (j == 1 && lim < 6) {{ lim = lim + k + 1; }} }} {P} c; {P} lim;'
+    B['condition-calls-function'] = f'{VAR} calls = 0; {FUN} more() {{ calls = calls + 1; {RET} calls < 3 + k; }} {VAR} r = 0; {WHILE} (more()) {{ r = r + 1; }} {P} r; {P} calls; {FOR} (; more() || calls < 8; ) {{ r = r + 1; }} {P} calls;'
+    B['condition-on-property'] = f'{VAR} st = {{go: {TRUE}, n: 0}}; {WHILE} (st.go) {{ st.n = st.n + 1; {IF} (st.n > k + 1) {{ st.go = {FALSE}; }} }} {P} st;'
+    B['condition-on-element'] = f'{VAR} q = [1, 1, 1, 0, 1]; {VAR} j = 0; {WHILE} (q[j]) {{ j = j + 1; {IF} (j == 2 && k == 1) {{ q[3] = 1; q[4] = 0; }} }} {P} j;'
+    B['increment-rebinds'] = f'{VAR} w = [0]; {VAR} c = 0; {FOR} ({VAR} j = 0; j < {N["len"]}(w) && j < 4 + k; j = (w = {N["append"]}(w, j))[0] + j + 1) {{ c = c + 1; }} {P} c; {P} {N["len"]}(w);'
+    # a call that does nothing still evaluates its arguments; a later operand may rebind what an earlier one read
+    B['noop-callee-arguments'] = f'{FUN} noop(a, b) {{ }} {FUN} konst(a) {{ {RET} 0; }} {FUN} say(t) {{ {P} "<" + t + ">"; {RET} t; }} {P} noop(say("a"), say("b")); {P} konst(say("c")); noop(G = G + 1, LOG = {N["append"]}(LOG, k)); {P} noop(G, 1) == nil; {P} noop(1, nosuch);'
+    B['rhs-rebinds-target'] = f'{VAR} x = [0, 0, 0]; {VAR} old = x; {FUN} fresh() {{ x = [7, 7, 7]; {RET} 4; }} x[k % 3] = fresh(); {P} x; {P} old; {VAR} o = {{v: 0}}; {VAR} oo = o; {FUN} fo() {{ o = {{v: 9}}; {RET} 5; }} o.v = fo(); {P} o; {P} oo;'
+    B['argument-rebinds-callee'] = f'{FUN} one() {{ {RET} "one"; }} {FUN} two() {{ {RET} "two"; }} {VAR} h = one; {FUN} swap() {{ h = two; {RET} 0; }} {FUN} call2(a, b) {{ {RET} [a, b]; }} {P} call2(h(), swap()); {P} h(); {VAR} y = 1; {P} y + (y = 5) + y; {P} [y, (y = 2), y];'
+    B['builtins-leave-arguments-alone'] = (f'{VAR} a = ["10", "9", 3, "2.5"]; {FUN} kind(x) {{ {IF} (("" + x) == x) {{ {RET} "s"; }} {RET} "n"; }} {FUN} kinds(v) {{ {VAR} r = ""; {FOR} ({VAR} j = 0; j < {N["len"]}(v); j = j + 1) {{ r = r + kind(v[j]); }} {RET} r; }} '
+        f'{P} {N["min"]}(a); {P} kinds(a); {P} {N["max"]}(a); {P} kinds(a); {P} {N["len"]}(a); {VAR} b = {N["append"]}(a, "7"); {P} kinds(a) + kinds(b); {VAR} c = {N["remove"]}(a, k % 2); {P} kinds(a) + kinds(c); '
+        f'{P} {N["abs"]}(a[0]) + {N["round"]}(a[3]) + {N["sqrt"]}(a[1]) + {N["pow"]}(a[0], a[3]); {P} kinds(a); {VAR} o = {{p: "5", q: 6}}; {P} {N["max"]}({N["values"]}(o)); {P} kind(o.p) + kind(o.q); {P} a[0] + 1; {P} a[0] == "10";')
     B['number-text'] = f'{P} (k + 1) / 3; {P} "" + (k + 1) / 3; {P} (k + 1) * 1000000; {P} 0 - k;'
     return B
 
